@@ -23,7 +23,7 @@ struct Plant {
     target_os: Vec<String>,
 }
 
-const LEAVES: [(&str, &str); 8] = [
+const LEAVES: [(&str, &str); 11] = [
     ("u64", "u64"),
     ("i64", "i64"),
     ("usize", "usize"),
@@ -33,6 +33,10 @@ const LEAVES: [(&str, &str); 8] = [
     ("tuple-type-trailing-comma", "(u8, String,)"),
     ("tuple-type-one-element", "(u8,)"),
     ("tuple-type-nested", "((u8, bool), String)"),
+    // the same primitives named through their paths: what the last segment says is what the type is
+    ("u64-path-qualified", "core::primitive::u64"),
+    ("usize-path-qualified", "std::primitive::usize"),
+    ("i64-path-leading-colons", "::core::primitive::i64"),
 ];
 
 fn chain(leaf: &str, depth: usize, rng: &mut Rng) -> String {
